@@ -113,6 +113,10 @@ pub struct MemCase {
     pub orders: Vec<Vec<u8>>,
     pub dup: Vec<bool>,
     pub keys: Vec<KeySpec>,
+    /// per pool position: the earlier membership messages named this node with another address than the final one
+    /// (a node that came back on a new address and was announced again); empty = no address ever changed
+    #[serde(default)]
+    pub moved: Vec<bool>,
 }
 
 #[derive(Debug, Clone, Serialize, Deserialize)]
@@ -197,16 +201,17 @@ fn membership_strategy() -> BoxedStrategy<Case> {
                 orders_strategy(n),
                 prop::collection::vec(prop::bool::weighted(0.25), n),
                 prop::collection::vec(key_strategy(), 1..=6),
+                prop_oneof![1 => Just(vec![]), 1 => prop::collection::vec(prop::bool::weighted(0.4), n)],
             )
         })
-        .prop_map(|(ids, mut members, forced, histories, orders, dup, keys)| {
+        .prop_map(|(ids, mut members, forced, histories, orders, dup, keys, moved)| {
             if !members.iter().any(|m| *m) {
                 let i = pick_idx(forced, members.len());
                 if let Some(m) = members.get_mut(i) {
                     *m = true;
                 }
             }
-            Case::Membership(MemCase { ids, members, histories, orders, dup, keys })
+            Case::Membership(MemCase { ids, members, histories, orders, dup, keys, moved })
         })
         .boxed()
 }
@@ -246,11 +251,21 @@ async fn start_node(local_id: u64) -> LiveNode {
     LiveNode { id: local_id, inner, manage }
 }
 
+/// the address a node had before it moved (never one of the final addresses)
+fn old_addr_of(pos: usize) -> Arc<String> {
+    Arc::new(format!("127.2.0.{}:9", (pos * 5 + 2) % 11 + 1))
+}
+
 /// the `UpdateNodes` payload for `members` (positions into ids) as node `pos` receives it
 fn nodes_message(ids: &[u64], members: &[bool], order: &[u8], dup: bool) -> Vec<(u64, Arc<String>)> {
+    nodes_message_moved(ids, members, order, dup, &[])
+}
+
+/// `old[p]`: name node p with its old address in this message
+fn nodes_message_moved(ids: &[u64], members: &[bool], order: &[u8], dup: bool, old: &[bool]) -> Vec<(u64, Arc<String>)> {
     let mut idx: Vec<usize> = (0..ids.len()).filter(|p| members.get(*p).copied().unwrap_or(false)).collect();
     idx.sort_by_key(|p| (order.get(*p).copied().unwrap_or(0), *p));
-    let mut v: Vec<(u64, Arc<String>)> = idx.iter().map(|p| (ids[*p], addr_of(*p))).collect();
+    let mut v: Vec<(u64, Arc<String>)> = idx.iter().map(|p| (ids[*p], if old.get(*p).copied().unwrap_or(false) { old_addr_of(*p) } else { addr_of(*p) })).collect();
     if dup {
         let again = v.clone();
         v.extend(again);
@@ -388,6 +403,13 @@ pub struct ViewEval {
 /// Evaluate `keys` on one view. `exist` = ids every participant was told about, `alive` = ids that are up
 /// (both sorted); `nodes` = one simulated node per alive id (sorted by id); `addr_id` maps address -> id.
 async fn eval_view(exist: &[u64], alive: &[u64], nodes: &[LiveNode], addr_id: &HashMap<String, u64>, keys: &[KeySpec]) -> ViewEval {
+    eval_view_opt(exist, alive, nodes, addr_id, keys, false).await
+}
+
+/// `judge_unsettled`: when the nodes' own views still differ from (exist, alive) after the last attempt, the keys are
+/// judged nevertheless against the true liveness (membership tier: nobody is ever silent there, so a node that reports a
+/// member - or itself - unavailable has no reason the property admits, and ownership / routing must agree all the same)
+async fn eval_view_opt(exist: &[u64], alive: &[u64], nodes: &[LiveNode], addr_id: &HashMap<String, u64>, keys: &[KeySpec], judge_unsettled: bool) -> ViewEval {
     let mut out = ViewEval::default();
     for attempt in 0..4 {
         out = ViewEval::default();
@@ -402,12 +424,14 @@ async fn eval_view(exist: &[u64], alive: &[u64], nodes: &[LiveNode], addr_id: &H
             }
         }
         if let Some((n, o)) = nodes.iter().zip(&pre).find(|(_, o)| o.valid != alive || o.known != exist) {
-            out.unstable = Some(format!(
-                "node {} sees known={:?} valid={:?}, expected exist={:?} alive={:?} (attempt {})",
-                n.id, o.known, o.valid, exist, alive, attempt
-            ));
-            actix_rt::time::sleep(Duration::from_millis(700)).await;
-            continue;
+            if !(judge_unsettled && attempt == 3) {
+                out.unstable = Some(format!(
+                    "node {} sees known={:?} valid={:?}, expected exist={:?} alive={:?} (attempt {})",
+                    n.id, o.known, o.valid, exist, alive, attempt
+                ));
+                actix_rt::time::sleep(Duration::from_millis(if judge_unsettled { 150 } else { 700 })).await;
+                continue;
+            }
         }
         let k = alive.len();
         // specification of the two computations for this view
@@ -1067,6 +1091,30 @@ fn eval_membership(judge: &Judge, mc: &MemCase) -> CaseReport {
     if history_without_local {
         labels.push("mem:history-without-local".into());
     }
+    {
+        // a node whose address differs between an earlier message that named it and the final one
+        let mut moved_seen = false;
+        let mut own_moved = false;
+        for (pos, h) in mc.histories.iter().enumerate() {
+            if !mc.members[pos] {
+                continue;
+            }
+            for m in h {
+                for q in 0..mc.ids.len() {
+                    if m[q] && mc.members[q] && mc.moved.get(q).copied().unwrap_or(false) {
+                        moved_seen = true;
+                        own_moved |= q == pos;
+                    }
+                }
+            }
+        }
+        if moved_seen {
+            labels.push("mem:node-address-changed".into());
+        }
+        if own_moved {
+            labels.push("mem:own-address-changed".into());
+        }
+    }
     let nontrivial = exist.len() >= 2 && any_history;
     let sys = actix_rt::System::new();
     let ev = sys.block_on(async {
@@ -1080,15 +1128,17 @@ fn eval_membership(judge: &Judge, mc: &MemCase) -> CaseReport {
                 continue;
             }
             let node = start_node(*id).await;
-            for m in mc.histories[pos].iter().chain(std::iter::once(&mc.members)) {
-                let msg = nodes_message(&mc.ids, m, &mc.orders[pos], mc.dup[pos]);
+            let n_hist = mc.histories[pos].len();
+            for (step, m) in mc.histories[pos].iter().chain(std::iter::once(&mc.members)).enumerate() {
+                // every earlier message names the moved nodes with their old address, the final one with the new one
+                let msg = if step < n_hist { nodes_message_moved(&mc.ids, m, &mc.orders[pos], mc.dup[pos], &mc.moved) } else { nodes_message(&mc.ids, m, &mc.orders[pos], mc.dup[pos]) };
                 if !matches!(node.inner.send(NodeManageRequest::UpdateNodes(msg)).await, Ok(Ok(_))) {
                     return ViewEval { infra: Some("UpdateNodes failed".into()), ..Default::default() };
                 }
             }
             nodes.push(node);
         }
-        eval_view(&exist, &exist, &nodes, &addr_id, &mc.keys).await
+        eval_view_opt(&exist, &exist, &nodes, &addr_id, &mc.keys, true).await
     });
     let mut verdict = Verdict::Pass;
     judge.fold(&format!("membership:final={}", exist.len()), nontrivial, &ev, &mut verdict);
@@ -1150,7 +1200,7 @@ fn fin(max_n: usize) -> Finish {
     Finish {
         level: "fault_enumeration",
         rule: format!(
-            "TIMER tier: every cluster size n=1..{n}, every non-empty alive set A, every local id i in A (exhaustive; ids, order of the UpdateNodes vector and list duplication per node are generated from the seed): a real InnerNodeManage per (n,A,i) gets UpdateNodes(all n), peers in A are reported active every 500 ms through NodeManage::active_node, the others are starved (from the start or, per node, after being heard for up to 3 s) until the actor's own 15 s / 3 s-tick rule invalidates them (real time, all views concurrently); in a second phase every unavailable node comes back as a fresh node and the all-alive view reached that way is judged after one more tick. proptest batches of 1..8 ServiceKeys (namespace/group/service strings as the handlers normalise them) are evaluated on EVERY view: O1 exactly one i in A owns hash(key) by QueryOwnerRange[0].is_range, O2 route_addr on every j in A designates a live node, O3 all j agree, O4 it is the owner; L: starved nodes are unavailable within {d} s, nodes just reported active are available. MEMBERSHIP tier (no timer): pools of 1..6 ids, per node 0..3 earlier UpdateNodes membership sets then a common final set, same oracle with A = final set. non-trivial case = key batch evaluated on at least one converged view with >=2 live nodes in which an unavailable node has a smaller id than a live one (TIMER) / final set >=2 and some node saw a different earlier membership (MEMBERSHIP); distinct = hash of the case. Configurations are enumerated completely, keys are sampled.",
+            "TIMER tier: every cluster size n=1..{n}, every non-empty alive set A, every local id i in A (exhaustive; ids, order of the UpdateNodes vector and list duplication per node are generated from the seed): a real InnerNodeManage per (n,A,i) gets UpdateNodes(all n), peers in A are reported active every 500 ms through NodeManage::active_node, the others are starved (from the start or, per node, after being heard for up to 3 s) until the actor's own 15 s / 3 s-tick rule invalidates them (real time, all views concurrently); in a second phase every unavailable node comes back as a fresh node and the all-alive view reached that way is judged after one more tick. proptest batches of 1..8 ServiceKeys (namespace/group/service strings as the handlers normalise them) are evaluated on EVERY view: O1 exactly one i in A owns hash(key) by QueryOwnerRange[0].is_range, O2 route_addr on every j in A designates a live node, O3 all j agree, O4 it is the owner; L: starved nodes are unavailable within {d} s, nodes just reported active are available. MEMBERSHIP tier (no timer): pools of 1..6 ids, per node 0..3 earlier UpdateNodes membership sets (in half of the cases naming some nodes - possibly the receiving node itself - with an older address) then a common final set with the final addresses, same oracle with A = final set. non-trivial case = key batch evaluated on at least one converged view with >=2 live nodes in which an unavailable node has a smaller id than a live one (TIMER) / final set >=2 and some node saw a different earlier membership (MEMBERSHIP); distinct = hash of the case. Configurations are enumerated completely, keys are sampled.",
             n = max_n,
             d = STARVE_DEADLINE.as_secs()
         ),
